@@ -32,6 +32,13 @@ variant, or one list of recordings handed to ``read``):
              SAC recording before a miniSEED / GCF one) with the options given
              once as ONE dict; and read_single called for one recording after
              the other with one and the same options dict
+             the other; per-recording degrees_from_north lists in which some
+             (or all) entries are None (= that file's own orientation), all
+             2**m - 1 such lists per list of m recordings
+  mixed-rates  one recording whose three traces / files differ in time step
+             (miniSEED one / three files, SAC, GCF, PEER), all 6 orders: refusal
+             accepted, a returned recording judged per component, the outcome
+             must not depend on the order
   observe    inputs the statement does not pin (counted, never judged)
   history    sequences at ONE set of file names inside one process: the files are
              written, read, overwritten (well-formed X / Y / Z that differ in
@@ -892,6 +899,8 @@ def _contain(values, how):
     if how == "tuple":
         return tuple(values)
     if how == "ndarray":
+        if any(v is None for v in values):
+            return np.array(values, dtype=object)       # dtype=float would turn None into nan in the harness
         return np.array(values, dtype=float)
     if how == "generator":
         return (v for v in values)
@@ -913,6 +922,20 @@ def _read_cases(tier, labels):
     cases = [(k, d, "list", "list", "list") for k in KW_SHAPES for d in DFN_SHAPES]
     cases.append(("list-trim", "list", "list", "list", "tuple"))
     cases.append(("none", "none", "list", "list", "tuple"))
+    # per-recording degrees_from_north lists that hold None for some recordings: ALL lists over
+    # {a number, None} of the length of fnames
+    m = len(labels)
+    masks, alt = _none_masks(m), _alternating_mask(m)
+    comp = f"list-none-{(2 ** m - 1) ^ int(alt.rsplit('-', 1)[1])}"
+    if tier == "quick":
+        cases += [("none", d, "list", "list", "list") for d in masks]
+        cases += [("list-format", d, "list", "list", "list") for d in dict.fromkeys([alt, comp]) if d in masks]
+        if not (m >= 3 and len(set(labels)) < m):
+            cases += [("none", alt, "list", "tuple", "list"), ("list-trim", alt, "list", "generator", "list")]
+    else:
+        cases += [(k, d, "list", "list", "list") for k in KW_SHAPES for d in masks]
+        cases += [(k, alt, "list", dc, "list") for k in ("none", "list-trim") for dc in DFN_CONTAINERS[1:]]
+        cases += [("list-format", comp, "tuple", "tuple", "tuple")] if comp in masks else []
     if tier == "quick" and len(labels) >= 3 and len(set(labels)) < len(labels):
         pass
     elif tier == "quick":
@@ -958,11 +981,25 @@ def run_read(root, ctx, tier):
         shutil.rmtree(wd, ignore_errors=True)
 
 
+def _none_masks(m):
+    """Names of all per-recording degrees_from_north lists of length m over {a number, None} that hold at
+    least one None: 'list-none-<k>', bit i of k set = recording i gets None."""
+    return [f"list-none-{k}" for k in range(1, 2 ** m)]
+
+
+def _alternating_mask(m):
+    """[None, number, None] cut to length m."""
+    return f"list-none-{5 & (2 ** m - 1)}"
+
+
 def _dfn_each(dshape, m):
     if dshape == "none":
         return [None] * m
     if dshape == "scalar":
         return [DFN_SCALAR] * m
+    if dshape.startswith("list-none-"):
+        k = int(dshape.rsplit("-", 1)[1])
+        return [None if (k >> i) & 1 else DFN_LIST[i] for i in range(m)]
     return list(DFN_LIST[:m])
 
 
@@ -973,6 +1010,12 @@ def _references(root, ctx, entries, labels, kshape, dshape, detail, refs):
         return refs[(kshape, dshape)]
     m = len(entries)
     d_each = _dfn_each(dshape, m)
+    if dshape.startswith("list-none-"):
+        # the same read_single calls as in the all-None and the all-numbers references
+        r_none = _references(root, ctx, entries, labels, kshape, "none", detail, refs)
+        r_list = _references(root, ctx, entries, labels, kshape, "list", detail, refs)
+        refs[(kshape, dshape)] = [r_none[i] if d_each[i] is None else r_list[i] for i in range(m)]
+        return refs[(kshape, dshape)]
     out = []
     for i, e in enumerate(entries):
         ctx.count("transitions")
@@ -988,7 +1031,8 @@ def _references(root, ctx, entries, labels, kshape, dshape, detail, refs):
 def _one_read(root, ctx, entries, labels, kshape, dshape, bare, kcont="list", dcont="list", fcont="list", refs=None):
     m = len(entries)
     refs = {} if refs is None else refs
-    klist, dlist = kshape.startswith("list"), dshape == "list"
+    klist, dlist = kshape.startswith("list"), dshape.startswith("list")
+    with_none = dshape.startswith("list-none-")
     if klist:
         kw_arg = _contain([_kw_for(kshape, entries, i)[0] for i in range(m)], kcont)
     else:
@@ -1020,7 +1064,14 @@ def _one_read(root, ctx, entries, labels, kshape, dshape, bare, kcont="list", dc
                                           "numpy float array)")
     kclass = "list" if klist else "scalar"
     dclass = "list" if dlist else "scalar"
-    if not plain:
+    if with_none:
+        # a None entry of a per-recording list means what None given once means: use the file's own
+        # orientation metadata (0 when there is none) for THAT recording
+        ctx.count("read_dfn_lists_with_none")
+        key_base = ("C07:read():per-recording-degrees_from_north-with-None-entries:kwargs-" +
+                    (kshape if plain else f"{kshape}-as-{kcont}:dfn-as-{dcont}:fnames-as-{fcont}"))
+        suffix = True
+    elif not plain:
         key_base = ("C07:read():container:kwargs-as-" + (kcont if klist else "one-value") +
                     ":dfn-as-" + (dcont if dlist else "one-value") + ":fnames-as-" + fcont)
         suffix = True
@@ -1415,6 +1466,163 @@ def _history_roots(tier):
 
 
 # ---------------------------------------------------------------------------
+# traces / files of ONE recording that do not share one time step.  The statement lists the inputs that
+# must be refused (sample count against the header, missing / duplicated component, unrecognised file);
+# traces with different sampling rates are not among them, so refusing such an input is ACCEPTED (and
+# counted) but not demanded.  What the statement does demand of every recording that IS returned:
+# every component holds exactly the samples stored for its channel "with the file's time step" - the
+# time step stored for THAT channel -, "whatever the order of the traces in the file or of the files in
+# the list".  So: a returned recording is judged component by component (samples, dt of its own trace),
+# and the outcome (refused / the recording) must be the same for all 6 orders.
+
+MIXED_FAMS = ["mseed1", "mseed3", "sac", "gcf", "peer"]
+# (rate a, rate b): every assignment of {a, b} to (vt, ns, ew) in which not all three are equal
+MIXED_RATE_PAIRS = {"quick": [(100, 50)], "thorough": [(100, 50), (250, 100), (512, 500)]}
+MIXED_N = {"quick": [17], "thorough": [17, 2, 1000]}
+# same-count: all traces hold n samples (different durations); same-duration: the trace with the higher
+# rate holds proportionally more samples (PEER: same-count only - the PEER reader documents that it trims
+# files of different lengths to the shortest)
+MIXED_LENGTHS = ["same-count", "same-duration"]
+MIXED_READS = {
+    "quick": [dict(kwargs="none", pathtype="str"), dict(kwargs="empty", pathtype="str")],
+    "thorough": [dict(kwargs="none", pathtype="str"), dict(kwargs="empty", pathtype="path"),
+                 dict(kwargs="format", pathtype="str"), dict(kwargs="none", pathtype="memory")],
+}
+MIXED_DFN = {"quick": [None], "thorough": [None, 33]}
+
+
+def _peer_dt_str(rate):
+    t = f"{1.0 / rate:.4f}"
+    assert abs(float(t) - 1.0 / rate) < 1e-15, rate
+    return t[1:]
+
+
+def build_mixed_rates(wd, fam, rates, lengths, n):
+    """Write one recording whose components are sampled at ``rates`` = {component: rate}.
+    Returns variants dict(label=<order>, fnames, want={component: (samples as float64, dt)}, dt_rtol)."""
+    slow = min(rates.values())
+    n_of = {c: (n if lengths == "same-count" else int(round(n * rates[c] / slow))) for c in COMPS}
+    dt_rtol = 1e-4 if fam == "sac" else 1e-12
+    if fam == "peer":
+        vals, toks = {}, {}
+        for c in COMPS:
+            toks[c] = F.peer_tokens("ramp", n_of[c])[c]
+            vals[c] = _f64([float(t) for t in toks[c]])
+    elif fam == "sac":
+        vals = {c: F.float_samples("ramp", n_of[c], np.float32)[c] for c in COMPS}
+    else:
+        vals = {c: np.array(F.int_samples("ramp", n_of[c])[c], dtype=np.int32) for c in COMPS}
+    want = {c: (_f64(vals[c]), (float(_peer_dt_str(rates[c])) if fam == "peer" else 1.0 / rates[c])) for c in COMPS}
+    out = []
+    if fam in ("mseed1", "gcf"):
+        for oi, order in enumerate(ORDERS):
+            p = os.path.join(wd, f"rec_{oi}.{'mseed' if fam == 'mseed1' else 'gcf'}")
+            traces = [(_chan("BH", c), vals[c], rates[c]) for c in order]
+            (F.write_mseed_own_rates if fam == "mseed1" else F.write_gcf_own_rates)(p, traces)
+            out.append(dict(label="-".join(order), fnames=p, want=want, dt_rtol=dt_rtol))
+        return out
+    paths = {}
+    for c, code in zip(COMPS, ("UP", "360", "90")):
+        if fam == "mseed3":
+            paths[c] = os.path.join(wd, f"rec_{c}.mseed")
+            F.write_mseed(paths[c], [(_chan("BH", c), vals[c])], rates[c])
+        elif fam == "sac":
+            paths[c] = os.path.join(wd, f"rec_{c}.sac")
+            F.write_sac(paths[c], _chan("BH", c), vals[c], rates[c], "big" if c == "ns" else "little")
+        else:
+            paths[c] = os.path.join(wd, f"rec_{c}.vt2")
+            F.write_peer(paths[c], toks[c], code, _peer_dt_str(rates[c]))
+    return [dict(label="-".join(order), fnames=[paths[c] for c in order], want=want, dt_rtol=dt_rtol)
+            for order in ORDERS]
+
+
+def run_mixed_rates(root, ctx, tier):
+    fam, rates, lengths, n = root["fmt"], root["rates"], root["lengths"], root["n"]
+    key = f"C07:read_single:{fam}:traces-of-one-recording-with-different-time-steps"
+    wd = tempfile.mkdtemp(prefix="hvmc-c07-")
+    try:
+        variants = build_mixed_rates(wd, fam, rates, lengths, n)
+        for rd in root["reads"]:
+            outcomes = {}
+            for var in variants:
+                detail = dict(family="mixed-rates", fmt=fam, sampling_rate_of_each_component=rates, lengths=lengths,
+                              n=n, order=var["label"], read=rd,
+                              files=[os.path.basename(str(f)) for f in
+                                     (var["fnames"] if isinstance(var["fnames"], list) else [var["fnames"]])],
+                              how="hvmc.checks.c07.build_mixed_rates(tmpdir, fmt, rates, lengths, n) writes the "
+                                  "files; read_single(files in this order, kwargs, degrees_from_north)")
+                ctx.count("states")
+                ctx.nontrivial_case(("mixed-rates", fam, rates, lengths, n, var["label"], rd))
+                ctx.count("transitions")
+                ctx.count("mixed_rate_reads")
+                res = _call_single(_paths(var["fnames"], rd["pathtype"], fam), _kwargs(fam, rd["kwargs"]), rd["dfn"])
+                ctx.count("validated")
+                if isinstance(res, tuple) and res and res[0] == "raised":
+                    ctx.outcome(("mixed-rates-refused", fam, res[1]))
+                    ctx.count("mixed_rate_inputs_refused")
+                    outcomes[var["label"]] = "refused"
+                    continue
+                o = _obs(res)
+                ctx.count("mixed_rate_inputs_accepted")
+                ctx.outcome(("mixed-rates", fam) + _obs_digest(o))
+                outcomes[var["label"]] = _obs_digest(o)
+                expected = {c: dict(samples=_head(var["want"][c][0]), n=len(var["want"][c][0]), dt=var["want"][c][1])
+                            for c in ("ns", "ew", "vt")}
+                if not all(_same(o[c], var["want"][c][0], "exact") for c in ("ns", "ew", "vt")):
+                    ctx.violation(key + ":samples", root, detail=detail, expected=expected, observed=_short(o),
+                                  explanation="a recording is returned whose components do not hold the samples "
+                                              "stored for their channels")
+                    continue
+                bad = [c for c, d in zip(("ns", "ew", "vt"), o["dt"])
+                       if abs(d - var["want"][c][1]) > var["dt_rtol"] * var["want"][c][1]]
+                if bad:
+                    ctx.violation(key + ":dt", root, detail=detail, expected=expected, observed=_short(o),
+                                  explanation=f"a recording is returned in which {bad} carry a time step other than "
+                                              "the one stored for that channel (refusing the input would have been "
+                                              "accepted)")
+                want_dfn = _mod360(rd["dfn"]) if rd["dfn"] is not None else 0.0
+                if abs(o["dfn"] - want_dfn) > 1e-9:
+                    ctx.violation(key + ":degrees_from_north", root, detail=detail, expected=want_dfn,
+                                  observed=o["dfn"], explanation="degrees_from_north is neither the explicit value "
+                                                                 "modulo 360 nor the file's orientation (0)")
+            if len(set(outcomes.values())) > 1:
+                by = {}
+                for lab, oc in outcomes.items():
+                    by.setdefault(oc, []).append(lab)
+                ctx.violation(key + ":order-dependent", root,
+                              detail=dict(family="mixed-rates", fmt=fam, sampling_rate_of_each_component=rates,
+                                          lengths=lengths, n=n, read=rd),
+                              observed=[dict(outcome=("refused" if oc == "refused" else
+                                                      dict(dt=list(oc[1]), degrees_from_north=oc[2])), orders=labs)
+                                        for oc, labs in by.items()],
+                              explanation="whether the input is refused / which recording is returned depends on the "
+                                          "order of the traces / files")
+    finally:
+        shutil.rmtree(wd, ignore_errors=True)
+
+
+def _mixed_rate_roots(tier):
+    out = []
+    for fam in MIXED_FAMS:
+        reads = [dict(rd, dfn=d) for rd in MIXED_READS[tier] for d in MIXED_DFN[tier]
+                 if not (fam == "peer" and rd["kwargs"] == "format")
+                 and not (fam == "gcf" and rd["pathtype"] == "memory")]
+        for (a, b) in MIXED_RATE_PAIRS[tier]:
+            if fam in ("peer", "gcf") and (a, b) == (512, 500):
+                continue        # 1/512 s is not a four-decimal PEER DT; obspy's GCF writer does not take 512 Hz
+            for pattern in itertools.product((a, b), repeat=3):
+                if len(set(pattern)) == 1:
+                    continue
+                for lengths in MIXED_LENGTHS:
+                    if fam == "peer" and lengths != "same-count":
+                        continue
+                    for n in MIXED_N[tier]:
+                        out.append(dict(family="mixed-rates", fmt=fam, rates=dict(zip(COMPS, pattern)),
+                                        lengths=lengths, n=n, reads=reads))
+    return out
+
+
+# ---------------------------------------------------------------------------
 # the repository's own example files
 
 EXAMPLE_DIR = "/repo/test/data/input"
@@ -1631,6 +1839,7 @@ def roots(tier, seed):
             out.append(dict(family="malformed", fmt=fmt, variant=v))
     out += _read_lists(tier)
     out += _history_roots(tier)
+    out += _mixed_rate_roots(tier)
     out += [dict(family="examples", name=name) for name in EXAMPLES]
     out.append(dict(family="observe"))
     for ext in (EXTENSIONS[:1] if tier == "quick" else EXTENSIONS):
@@ -1653,6 +1862,8 @@ def run_root(root, ctx, tier):
         run_observe(root, ctx, tier)
     elif fam == "same-extension":
         run_same_extension(root, ctx, tier)
+    elif fam == "mixed-rates":
+        run_mixed_rates(root, ctx, tier)
     else:
         run_family(root, ctx, tier)
 
@@ -1685,6 +1896,13 @@ def finalize(ctx, tier):
         ctx.violation("C07:harness:vacuous-input-shapes", None,
                       explanation="no in-memory file / second read of a stream / per-recording values in another "
                                   "container than a list / shared options dict / mixed-format list was run")
+    if c.get("validated", 0) and not (c.get("read_dfn_lists_with_none", 0) and c.get("mixed_rate_reads", 0)):
+        ctx.violation("C07:harness:vacuous-round5", None,
+                      explanation="no read() with a per-recording degrees_from_north list holding None / no recording "
+                                  "whose traces differ in time step was run")
+    if c.get("mixed_rate_reads", 0) != c.get("mixed_rate_inputs_refused", 0) + c.get("mixed_rate_inputs_accepted", 0):
+        ctx.violation("C07:harness:mixed-rate-bookkeeping", None,
+                      explanation="a read of a recording whose traces differ in time step was neither refused nor judged")
     ctx.notes["sizes"] = {fam: product.size({**SPACES[fam]["file"], **SPACES[fam]["read"]}, K[tier][fam])
                           for fam in SPACES}
 
@@ -1773,5 +1991,34 @@ _describe_base = describe
 
 def describe(tier):     # noqa: F811 - the base description plus what later rounds added to the space
     d = _describe_base(tier)
-    d["rule"] = d["rule"] + " " + 'Family same-extension: the files of six formats are renamed to one extension (.dat; thorough also .txt and none) and every ordered pair (and some triples) of formats is read in one process, each read judged against its expectation.'
+    d["rule"] = d["rule"] + " " + (
+        "Per-recording degrees_from_north lists with None entries: for every list of recordings handed to read(), "
+        "ALL lists over {a number, None} of that length with at least one None (2**m - 1 lists; None = use that "
+        "file's own orientation metadata, exactly as None given once) with the options None (quick; thorough: with "
+        "all 6 options shapes), the alternating list [None, x, None] and its complement with per-recording options, "
+        "and the alternating list as tuple / generator (thorough: every container, numpy array of dtype object); "
+        "each element compared with read_single(recording_i, options_i, None or x_i), keys "
+        "read():per-recording-degrees_from_north-with-None-entries. "
+        "Family mixed-rates: ONE recording whose three traces / files do not share one time step, for miniSEED in "
+        "one and in three files, SAC, GCF and PEER (DT header): every assignment of two rates to (vt, ns, ew) that "
+        "is not constant (6) x {all traces the same sample count, all traces the same duration} (PEER: same count) "
+        "x all 6 orders x the listed read options; refusing is accepted and counted (the statement does not list it "
+        "among the demanded refusals), a recording that is returned must hold each channel's samples with THAT "
+        "channel's stored time step, and refused / the returned recording must be the same for all 6 orders; keys "
+        "read_single:<fmt>:traces-of-one-recording-with-different-time-steps:{samples,dt,degrees_from_north,"
+        "order-dependent}. ")
+    d["bounds"]["read_degrees_from_north_lists_with_None"] = dict(
+        lists_per_length={m: len(_none_masks(m)) for m in (1, 2, 3, 4)}, values_for_the_other_entries=DFN_LIST)
+    d["bounds"]["mixed_rates"] = dict(formats=MIXED_FAMS, rate_pairs=MIXED_RATE_PAIRS[tier], n=MIXED_N[tier],
+                                      lengths=MIXED_LENGTHS, reads=MIXED_READS[tier],
+                                      degrees_from_north=MIXED_DFN[tier], orders=6,
+                                      roots=len(_mixed_rate_roots(tier)))
+    d["assumptions"] = d["assumptions"] + [
+        "a None entry inside a per-recording degrees_from_north list means what the documented default None means "
+        "for that recording (file metadata, else 0)",
+        "traces of one recording with different sampling rates: refusal is accepted, not demanded; on the unchanged "
+        "library every such input is refused (counter mixed_rate_inputs_refused), so the samples / dt oracles of "
+        "that family only come into play when a change makes the readers accept such input",
+    ]
+    d["rule"] = d["rule"] + 'Family same-extension: the files of six formats are renamed to one extension (.dat; thorough also .txt and none) and every ordered pair (and some triples) of formats is read in one process, each read judged against its expectation.'
     return d
